@@ -66,6 +66,12 @@ func mergeObs(runs []*e3Run) []*absint.Ob {
 	return out
 }
 
+// residualScope(listed, actual): the obligation's function is a helper split off
+// the function a residual is listed for (reachable from it by at most two static
+// calls) — a reviewed residual stays the same residual when the code it sits in is
+// moved into a helper of the same function.  Set by newE3Env.
+var residualScope func(listed, actual string) bool
+
 // emitObs turns engine obligations into result obligations, applying the residual list.
 func emitObs(r *core.Result, obs []*absint.Ob, residuals []*residualEntry, prop string, want func(o *absint.Ob) bool) int {
 	n := 0
@@ -80,7 +86,7 @@ func emitObs(r *core.Result, obs []*absint.Ob, residuals []*residualEntry, prop 
 		}
 		matched := false
 		for _, re := range residuals {
-			if re.Rule == o.Rule && re.Func == o.Fn && re.Expr == o.Expr {
+			if re.Rule == o.Rule && re.Expr == o.Expr && (re.Func == o.Fn || (residualScope != nil && residualScope(re.Func, o.Fn))) {
 				re.used = true
 				matched = true
 				r.Residual(o.Rule, o.Fn, o.Expr, o.Pos, re.Reason)
